@@ -161,6 +161,12 @@ def normalize(t: Term, subst: Optional[Dict[str, Term]] = None, _d: int = 0) -> 
         return nf_pow(normalize(t[1], subst), normalize(t[2], subst))
     if k == "fn":
         return {(((("fn", t[1], canon(normalize(t[2], subst)))), ONE_EXP),): Fraction(1)}
+    if k == "mod":
+        a, b = normalize(t[1], subst), normalize(t[2], subst)
+        ca, cb = nf_is_const(a), nf_is_const(b)
+        if ca is not None and cb is not None and cb != 0:
+            return nf_const(ca % cb)
+        return {(((("mod", canon(a), canon(b))), ONE_EXP),): Fraction(1)}
     raise ValueError(f"unknown term {t!r}")
 
 
@@ -226,6 +232,8 @@ def _mentions(b, s) -> bool:
         return _mentions_canon(b[1], s)
     if b[0] == "fn":
         return _mentions_canon(b[2], s)
+    if b[0] == "mod":
+        return _mentions_canon(b[1], s) or _mentions_canon(b[2], s)
     return False
 
 
@@ -262,6 +270,8 @@ def _base_to_term(b) -> Term:
         return nf_to_term(uncanon(b[1]))
     if b[0] == "fn":
         return ("fn", b[1], nf_to_term(uncanon(b[2])))
+    if b[0] == "mod":
+        return ("mod", nf_to_term(uncanon(b[1])), nf_to_term(uncanon(b[2])))
     raise ValueError(b)
 
 
@@ -301,8 +311,19 @@ def evaluate(t: Term, env: Dict[tuple, float]) -> float:
             if isinstance(r, complex):
                 raise Undefined("complex power")
             return r
+        if k == "mod":
+            d = evaluate(t[2], env)
+            if d == 0:
+                raise Undefined("modulo by zero")
+            return evaluate(t[1], env) % d
         if k == "fn":
             v = evaluate(t[2], env)
+            if t[1] == "int":
+                return float(int(v))
+            if t[1] == "sqrt":
+                if v < 0:
+                    raise Undefined("sqrt of negative")
+                return math.sqrt(v)
             if t[1] == "abs":
                 return abs(v)
             if t[1] == "sgn":
@@ -330,7 +351,7 @@ def term_str(t: Term) -> str:
         return f"-({term_str(t[1])})"
     if k == "fn":
         return f"{t[1]}({term_str(t[2])})"
-    op = {"add": "+", "sub": "-", "mul": "*", "div": "/", "pow": "^"}[k]
+    op = {"add": "+", "sub": "-", "mul": "*", "div": "/", "pow": "^", "mod": "%"}[k]
     return f"({term_str(t[1])} {op} {term_str(t[2])})"
 
 
